@@ -149,6 +149,35 @@ def retype_annotations(G, jd_type):
             G.nodes[v][JD] = list(r) if (k == 1 or (isinstance(v, int) and v % k == 1)) else tuple(r)
 
 
+def reordered(G, mode, seed, relabel=None):
+    """Copy of an annotated graph whose vertices were INSERTED in another order than their labels (a graph built from an
+    edge list, relabelled, or with vertices added late) and, optionally, carry other labels.  All attributes are kept.
+    mode: reversed | shuffled | edges_first;  relabel: None | offset (v + 1000) | mirror (n - 1 - v) | gaps (3 v + 2)."""
+    import random as _r
+    rng = _r.Random(seed)
+    nodes = list(G.nodes())
+    n = len(nodes)
+    f = {None: (lambda v: v), "offset": (lambda v: v + 1000), "mirror": (lambda v: n - 1 - v),
+         "gaps": (lambda v: 3 * v + 2)}[relabel if all(isinstance(v, int) for v in nodes) else None]
+    H = G.__class__()
+    H.graph.update(G.graph)
+    edges = list(G.edges(data=True))
+    if mode == "edges_first":
+        rng.shuffle(edges)
+        for u, v, d in edges:
+            H.add_edges_from([(f(u), f(v), dict(d))])
+        for v in nodes:
+            H.add_node(f(v))
+    else:
+        order = nodes[::-1] if mode == "reversed" else rng.sample(nodes, n)
+        for v in order:
+            H.add_node(f(v))
+        H.add_edges_from((f(u), f(v), dict(d)) for u, v, d in edges)
+    for v in nodes:
+        H.nodes[f(v)].update(G.nodes[v])
+    return H
+
+
 def decorate(G, extra):
     """Extra node / edge attributes with semantically loaded names (scenario field extra_attrs = [name, kind])."""
     if not extra:
